@@ -46,9 +46,13 @@ def dbg_histories(seed, n):
         done = []
         for line in cmds:
             before = list(shell.debugger.vm.registers)
-            out, errs, exc, cont = dbg.feed(shell, line)
+            out, errs, exc, cont = dbg.feed(shell, line, limit=5)
             done.append(line)
             evals += 1
+            if exc and exc.startswith("Hang"):
+                # generated programs (and programs whose state the history has changed) may loop for ever under
+                # `continue`: no verdict about well-formedness from such a session
+                break
             if exc:
                 violations.append({"property": "C14", "stream": "dbgwrites", "sig": "dbg:exception:" + exc.split(":")[0],
                                    "case": {"text": text, "opts": opts, "cmds": list(done)},
@@ -123,7 +127,7 @@ def replay(obj):
         if shell is None:
             return None
         for line in case["cmds"]:
-            out, errs, exc, cont = dbg.feed(shell, line)
+            out, errs, exc, cont = dbg.feed(shell, line, limit=10)
             w = isa.wf_violation(shell.debugger.vm)
             if w:
                 return "after {!r}: {}".format(line, w)
